@@ -49,9 +49,9 @@ def plan(tier, seed):
     if _ENUM is None:
         _ENUM = enumerated()
     if tier == 'quick':
-        return {'n': len(_ENUM) // 2 + 3000, 'budget_s': 45, 'min_evals': 2000,
+        return {'n': len(_ENUM) + 800, 'budget_s': 45, 'min_evals': 2000,
                 'floors': {'faults_injected': 1500, 'putData_seen': 1000, 'failpoints_fired': 1500}}
-    return {'n': len(_ENUM) + 60000, 'budget_s': 600, 'min_evals': 20000,
+    return {'n': 2 * len(_ENUM) + 60000, 'budget_s': 600, 'min_evals': 20000,
             'floors': {'faults_injected': 20000, 'putData_seen': 10000, 'failpoints_fired': 50000}}
 
 
@@ -252,9 +252,12 @@ def run_case(idx, rng, tier, res):
         res.count('stress_partial_multi_file')
         res.sig = harness.stable_hash(scn)
         return
+    # the two phases are interleaved (even index: next enumerated placement, odd: random scenario) so
+    # that a time budget cut trims both alike
     stride = 2 if tier == 'quick' else 1
-    if idx * stride < len(_ENUM) and (tier != 'quick' or idx < len(_ENUM) // 2):
-        scn, gname = build_enumerated(_ENUM[(idx * stride + (rng.random() < 0.5 and stride - 1 or 0))
+    e = idx // 2
+    if idx % 2 == 0 and e * stride < len(_ENUM):
+        scn, gname = build_enumerated(_ENUM[(e * stride + (rng.random() < 0.5 and stride - 1 or 0))
                                             % len(_ENUM)], rng)
         phase = 'enumerated'
     else:
